@@ -740,6 +740,11 @@ func DrawForeign(l *core.Lane, pool []uint16, used map[uint16]bool) *Entry {
 		return nil
 	}
 	used[id] = true
+	return drawForeignID(l, id)
+}
+
+// drawForeignID draws an unknown tag with the given id.
+func drawForeignID(l *core.Lane, id uint16) *Entry {
 	typ := 1 + l.Intn(12)
 	var count int
 	switch l.Intn(4) {
@@ -830,6 +835,10 @@ type LayoutOpts struct {
 	Foreign   int  // max foreign tags per directory
 	IFD1      bool // allow a next-IFD chain
 	Canonical bool // everything at its simplest (used for the "stripped" metamorphic twin)
+	// Bulk > 0 adds that many further unknown tags (ids from a private range) to one directory:
+	// files beyond the documented limits (>128 entries, >84 pending out-of-line tags), which the
+	// "returns"/differential properties must survive and C03/C06/C07 skip.
+	Bulk int
 }
 
 // DrawLayout draws a forward layout for the given root directory and its children.
@@ -1069,6 +1078,19 @@ func BuildTIFF(l *core.Lane, r *Record, opts LayoutOpts) *Layout {
 	if gps != nil {
 		addForeign(gps, foreignGPS)
 		ifd0.Entries = append(ifd0.Entries, &Entry{ID: tagGPSIFD, Type: TLong, Count: 1, Child: gps, Field: "GPSIFD"})
+	}
+	if opts.Bulk > 0 && !opts.Canonical {
+		dirs := []*Dir{ifd0}
+		if exif != nil {
+			dirs = append(dirs, exif)
+		}
+		if gps != nil {
+			dirs = append(dirs, gps)
+		}
+		d := dirs[l.Intn(len(dirs))]
+		for i := 0; i < opts.Bulk; i++ {
+			d.Entries = append(d.Entries, drawForeignID(l, uint16(0xd000+i)))
+		}
 	}
 	if opts.IFD1 && !opts.Canonical && l.Chance(1, 4) {
 		ifd1 := &Dir{Name: "IFD1"}
